@@ -463,7 +463,10 @@ def run(tier):
                                    "adversarial_stream": adv, "error": o["err"]}))
             continue
         if o["guard"]:
-            bad("hillclimb", r, "Vela's own verify_allocation raised: " + o["guard"], {"max_iterations": mi, "memory_limit": lim})
+            ok_addr = all(a is not None for a in o["addr"])
+            why = oracle("hillclimb", r, o["addr"], max([a + x[2] for a, x in zip(o["addr"], r)] + [0])) if ok_addr else None
+            bad("hillclimb", r, (why + "; " if why else "") + "Vela's own verify_allocation raised: " + o["guard"],
+                {"max_iterations": mi, "memory_limit": lim, "addresses": o["addr"]})
             continue
         why = oracle("hillclimb", r, o["addr"], o["total"])
         if not why:
